@@ -3,9 +3,9 @@
 d=$(cd "$1" && pwd); prop=$2; shift 2
 scratch=$(mktemp -d /dev/shm/seed.XXXX)
 trap 'rm -rf $scratch' EXIT
-rsync -a --exclude .git /repo/ $scratch/
+rsync -a --exclude .git ${REPO_SRC:-/repo}/ $scratch/
 (cd $scratch && git init -q . 2>/dev/null; git -C $scratch apply --whitespace=nowarn $d/patch.diff 2>/dev/null || (cd $scratch && patch -s -p1 --fuzz=3 < $d/patch.diff)) || { echo "PATCH-FAILED $d"; exit 3; }
-out=$(/verif/bin/govc -repo $scratch -prop "$prop" -replays $scratch/replays -known /nonexistent "$@" 2>&1)
+out=$(${GOVC_BIN:-/verif/bin/govc} -specs ${GOVC_SPECS:-/verif/specs} -repo $scratch -prop "$prop" -replays $scratch/replays -known /nonexistent "$@" 2>&1)
 rc=$?
 if [ $rc -eq 1 ]; then echo "CAUGHT $d prop=$prop: $(echo "$out" | grep '^VIOLATION' | sed 's/.*obligation=//' | tr '\n' ' ' | cut -c1-400)";
 elif [ $rc -eq 0 ]; then echo "MISSED $d prop=$prop"; 
